@@ -1,11 +1,15 @@
 /- Driver for C15: the real squareroot()/nextretry()/prioq_*()/pass_dochan()/del_dochan()/pqrun()/
    pqfinish()/pqstart() of qmail-send.c and prioq.c (harness/c15_sched.c) against Nq.Sched, with the
    property predicates of Nq.Spec.Sched evaluated on the implementation's outputs.
-   Input lines: see harness/c15_sched.c. -/
+   Input lines: see harness/c15_sched.c.  `W` lines (harness/c15_loop.c): the real main() loop under a discrete-event
+   virtual clock; every select is judged by Nq.Spec.SchedHist.sleptThrough (theorem C15_sleep_not_through) and its
+   timeout compared with Nq.SelPrep.timeout. -/
 import Drv.Util
 import Nq.Sched
 import Nq.Spec.Sched
 import Nq.SchedHist
+import Nq.Spec.SchedHist
+import Nq.SelPrep
 
 open Nq Nq.Sched Nq.Spec.Sched Nq.SchedHist Drv
 
@@ -460,6 +464,143 @@ def handleP (st : Stats) (line : String) (rest : List String) : IO Stats := do
     | _, _, _, _, _ => bad
   | _ => bad
 
+/-! ### select-loop scenarios (harness/c15_loop.c) -/
+
+def optInt (s : String) : Option (Option Int) := if s == "-" then some none else s.toInt?.map some
+
+def parseLChan (s : String) : Option Nq.SelPrep.Chan :=
+  match s.splitOn "," with
+  | [a, cp, u, k, o, m] => do
+    some { spawnAlive := a == "1", commPending := cp == "1", used := (← u.toNat?), conc := (← k.toNat?),
+           passOpen := o == "1", pqMin := (← optInt m) }
+  | _ => none
+
+structure SelRec where
+  snap : Nq.SelPrep.Snap
+  timeout : Int
+  tafter : Int
+  nready : Nat
+  count : Nat
+
+def parseSel (t : String) : Option SelRec :=
+  let (body, cnt) := match t.splitOn "*" with
+    | [b, c] => (b, c.toNat?.getD 1)
+    | _ => (t, 1)
+  match body.splitOn ":" with
+  | ["s", rc, ex, c0, c1, fj, pf, pd, td, nx, fc, ct, tmo, ta, nr] => do
+    let snap : Nq.SelPrep.Snap :=
+      { recent := (← rc.toInt?), exitasap := ex == "1", chans := [(← parseLChan c0), (← parseLChan c1)],
+        jobRefs := if (← fj.toNat?) > 0 then [0] else [1], pqfailMin := (← optInt pf), pqdoneMin := (← optInt pd),
+        triggerFd := true, tododir := td == "1", nexttodorun := (← nx.toInt?), flagcleanup := fc == "1",
+        cleanuptime := (← ct.toInt?) }
+    some { snap := snap, timeout := (← tmo.toInt?), tafter := (← ta.toInt?), nready := (← nr.toNat?), count := cnt }
+  | _ => none
+
+def bumpN (s : Stats) (k : String) (n : Nat) : Stats :=
+  if n = 0 then s else
+  let rec go : List (String × Nat) → List (String × Nat)
+    | [] => [(k, n)]
+    | (k', m) :: r => if k' == k then (k', m + n) :: r else (k', m) :: go r
+  { s with counters := go s.counters }
+
+/-- a channel is in the middle of a pass and cannot start another delivery (slots taken, write pending or spawner dead) -/
+def midPassBlocked (s : Nq.SelPrep.Snap) : Bool := s.chans.any fun c => c.passOpen && !Nq.SelPrep.delAvail c
+
+def handleLoop (st : Stats) (line : String) (rest : List String) : IO Stats := do
+  match rest with
+  | [scen, recs] =>
+    let h := hashBytes scen.toUTF8.toList
+    let fresh := !st.seen.contains h
+    let mut st := { st with seen := st.seen.insert h, nontrivial := st.nontrivial + (if fresh then 1 else 0) }
+    st := st.bump "loop_scenarios"
+    let mut dis : Option String := none
+    let mut orc : Option String := none
+    let mut nsel := 0
+    let mut nsleep := 0
+    let mut nblocked := 0
+    let mut nblockedStartable := 0
+    let mut ncut := 0
+    let mut nbFail := 0
+    let mut nbDone := 0
+    let mut nbChan := 0
+    let mut nbOwn := 0
+    let mut ended := false
+    let mut k := 0
+    let mut alrm := 0      -- an ALRM was delivered inside a select: the snapshot of the select after that one is taken after pqrun()
+    let mut nalrm := 0
+    for t in (if recs == "-" then [] else recs.splitOn ";") do
+      if t.startsWith "g:" && t.endsWith ":A" then
+        alrm := 2
+      else if t.startsWith "s:" then
+        match parseSel t with
+        | none => if dis.isNone then dis := some s!"unparsable select record {t}"
+        | some r =>
+          k := k + r.count
+          nsel := nsel + r.count
+          let s := r.snap
+          -- "an ALRM makes everything due at once": at the first select after pqrun() the head of every channel heap is due
+          if alrm > 0 then
+            if r.count ≥ alrm then
+              alrm := 0
+              nalrm := nalrm + 1
+              if s.chans.any (fun c => match c.pqMin with | some d => decide (d > s.recent) | none => false) && orc.isNone then
+                orc := some s!"select {k}: after ALRM (pqrun) a channel heap still has its earliest entry in the future of {s.recent}: snap={t}"
+            else alrm := alrm - r.count
+          -- correspondence: the timeout the real main() passed to select vs the model of the select preparation
+          let mt := Nq.SelPrep.timeout s
+          if mt != r.timeout && dis.isNone then dis := some s!"select {k}: timeout impl={r.timeout} model={mt} snap={t}"
+          -- property oracle on the implementation's values only (theorem C15_sleep_not_through)
+          let dues := Nq.Spec.SchedHist.startableDues s
+          if r.timeout != 0 then
+            nsleep := nsleep + r.count
+            if midPassBlocked s then
+              nblocked := nblocked + r.count
+              if !dues.isEmpty then nblockedStartable := nblockedStartable + r.count
+              if s.pqfailMin.isSome then nbFail := nbFail + r.count
+              if s.pqdoneMin.isSome then nbDone := nbDone + r.count
+              if s.chans.any (fun c => !c.passOpen && c.pqMin.isSome) then nbChan := nbChan + r.count
+              if s.chans.any (fun c => c.passOpen && !Nq.SelPrep.delAvail c && c.pqMin.isSome) then nbOwn := nbOwn + r.count
+            if dues.any (fun d => d + Nq.SelPrep.SLEEP_FUZZ == r.tafter) then ncut := ncut + r.count
+          if Nq.Spec.SchedHist.sleptThrough s r.tafter && orc.isNone then
+            let d := (Nq.Spec.SchedHist.sleptThroughWhich s r.tafter).getD 0
+            orc := some s!"select {k}: slept through a due time: a startable entry was due at {d} (T0+{d - 1000000000}), the daemon went to sleep at {s.recent} with timeout {r.timeout} and woke at {r.tafter}, {r.tafter - d} s late (fuzz {Nq.SelPrep.SLEEP_FUZZ}); blocked mid-pass={midPassBlocked s} snap={t}"
+      else if t == "x:abort" then
+        ended := true
+        if orc.isNone then orc := some s!"the daemon used up the select budget without finishing (it spins with work it does not start, or never stops) after select {k}"
+      else if t.startsWith "x:" then
+        ended := true
+        match t.splitOn ":" with
+        | ["x", code, crashed, _] => if (code != "0" || crashed != "0") && dis.isNone then dis := some s!"daemon ended with exit={code} crashed={crashed}"
+        | _ => if dis.isNone then dis := some s!"unparsable end record {t}"
+      else pure ()
+    if !ended && dis.isNone then dis := some "no end record"
+    st := { st with cases := st.cases + nsel }
+    st := bumpN st "loop_selects" nsel
+    st := bumpN st "loop_sleeps" nsleep
+    st := bumpN st "loop_sleeps_with_a_channel_blocked_midpass" nblocked
+    st := bumpN st "loop_sleeps_blocked_midpass_and_startable_entry_pending" nblockedStartable
+    st := bumpN st "loop_sleeps_ended_by_a_startable_due_time" ncut
+    st := bumpN st "loop_blocked_sleeps_with_pqfail_entry" nbFail
+    st := bumpN st "loop_alrm_checked" nalrm
+    st := bumpN st "loop_blocked_sleeps_with_pqdone_entry" nbDone
+    st := bumpN st "loop_blocked_sleeps_with_entry_on_an_idle_channel" nbChan
+    st := bumpN st "loop_blocked_sleeps_with_entry_on_the_blocked_channels_own_heap" nbOwn
+    match dis with
+    | some d =>
+      IO.println s!"DISAGREE in=W,{scen} what={((d.replace " " "_").replace "\n" "").take 1500}"
+      st := { st with disagree := st.disagree + 1 }
+    | none => pure ()
+    match orc with
+    | some w =>
+      IO.println s!"ORACLE in=W,{scen} what={(w.replace " " "_").take 1200}"
+      st := { st with oracle := st.oracle + 1 }
+    | none => pure ()
+    if st.samples < 2 && fresh && nblockedStartable > 0 && ncut > 0 && scen.length < 200 then
+      IO.println s!"SAMPLE select loop scenario={scen} selects={nsel} sleeps={nsleep} sleeps_with_a_channel_blocked_midpass_and_a_startable_entry_pending={nblockedStartable} sleeps_ended_exactly_at_due+fuzz={ncut}"
+      st := { st with samples := st.samples + 1 }
+    return st
+  | _ => IO.println s!"DISAGREE unparsable W line {line.take 200}"; return { st with disagree := st.disagree + 1, cases := st.cases + 1 }
+
 def handle (st : Stats) (line : String) : IO Stats := do
   let bad := fun (st : Stats) => do
     IO.println s!"DISAGREE unparsable line {line.take 300}"
@@ -549,6 +690,7 @@ def handle (st : Stats) (line : String) : IO Stats := do
     | _, _, _ => bad st
   | "S" :: rest => handleHist st line rest
   | "P" :: rest => handleP st line rest
+  | "W" :: rest => handleLoop st line rest
   | ["K", name, v] =>
     let st := { st with cases := st.cases + 1 }
     if name == "SLEEP_SYSFAIL" && v.toInt? != some Nq.Sched.SLEEP_SYSFAIL then
